@@ -160,6 +160,7 @@ def ctor (s : DState) (op : String) (args : List Nat) (_raw : List String) : Opt
     -- a leading `A` token: the same values as a positional (JSON array) document
     let (seq, _raw) := match _raw with
       | "A" :: rest => (true, rest)
+      | ["N"] => (true, [])          -- the document is a bare number: `invalid type`, as for a sequence
       | _ => (false, _raw)
     match _raw.mapM parseField with
     | none => none
@@ -282,6 +283,10 @@ def opHll (s : DState) (h : Hll.St) (bh : HashCfg) (op : String) (a : List Nat) 
   | "hll.rebuild", [j] => match Hll.withRegisters h.b h.regs with
     | some h' => .mk j (.hll h' bh)
     | none => .mk j .poisoned "panic"
+  | "hll.eq", [j] => match s.insts[j]? with
+    | some (.hll o obh) => .ans (b2s (h.b == o.b && h.regs == o.regs && obh == bh))
+    | some .poisoned => .ans "poisoned"
+    | _ => .bad
   | "hll.clone", [j] => .mk j (.hll h bh)
   | _, _ => .bad
 
